@@ -45,7 +45,11 @@ RULE_ADDED = (
               'll sweeps apply to them). '
               ' '
               'Round 15: one status word in 32 also over TCPSigner / SGX: same outcome as over '
-              'HID. ')
+              'HID. '
+              ' '
+              'Round 16: on SGX, a repair that goes through the unlock dialogue with the echo /'
+              " unlock exchange answered by in-range status words (incl. the SGX system layer's"
+              ' own). ')
 RULE = RULE + " " + RULE_ADDED.strip()
 ASSUMPTIONS = [
     "simulated device + fake HID transport trusted; injected status words carry no data "
@@ -195,6 +199,9 @@ def run_shard(spec, acc):
                 for k in range(4):
                     for sw in REPAIR_SWS:
                         check_repair_cell(acc, shape, k, sw, allowed)
+            if not v1 and shape.name in ("getPubKey", "sign.hash", "state", "parameters") and \
+                    gi % spec["n"] == spec["shard"] % spec["n"]:
+                check_sgx_locked_repair(acc, shape, allowed)
             # ---- the same refusal many times in a row on one manager: the tenth answer is
             # the first one's (nothing counts refusals)
             if not v1 and gi % spec["n"] == spec["shard"] % spec["n"]:
@@ -251,6 +258,47 @@ def check_platforms_agree(acc, shape, v1, k, role, sw):
                                    "outcomes": {p_: list(o_) for p_, o_ in outcomes.items()}},
             {"shape": shape.name, "v1": v1, "k": k, "role": role,
              "fault": ["sw", sw, None, False], "prelude": None, "platforms": True})
+
+
+SGX_SYSTEM_SWS = [0x6BEE, 0x6BEF, 0x6BF0, 0x6BF1, 0x6BF2, 0x69A0, 0x6A87, 0x6B10, 0x6BFF, 0x6D00]
+
+
+def check_sgx_locked_repair(acc, shape, allowed):
+    """SGX platform: link failure, the enclave back locked, and in the repair the next
+    request runs - which goes through the unlock dialogue - the echo or the unlock exchange
+    is answered with an error status of the device's own range (the SGX system layer has a
+    few of its own: not onboarded, locked, password change ...).  It never stops the manager."""
+    from ..stack import Stack
+    for cmdbyte, what in ((0xA4, "echo"), (0xA3, "unlock")):
+        for sw in SGX_SYSTEM_SWS:
+            dev = fl.make_device(shape, platform="sgx")
+            dev.unlocked = True
+            with Stack(dev) as s:
+                s.bus.tcp_faults_as_hid = True
+                s.initialize()
+                s.bus.arm({0: Fault("read_error")})
+                s.request(shape.request)
+                s.bus.arm({})
+                dev.pending_link = None
+                dev.unlocked = False
+                s.bus.arm_cmd({cmdbyte: Fault("sw", sw=sw)})
+                reply, exc, out = s.request(shape.request)
+                hit = any(e.get("fault") for e in s.bus.events if e["ev"] == "apdu")
+            acc.evaluations += 1
+            acc.distinct_disjoint += 1
+            acc.count("cells_with_a_status_word_inside_a_repair_on_a_locked_sgx_device")
+            case = {"shape": shape.name, "v1": False, "k": None, "role": "sgx-" + what,
+                    "fault": ["sw", sw, None, False], "prelude": None, "sgx_locked_repair": True}
+            if not hit:
+                acc.count("sgx_locked_repair_cells_not_reached")
+                continue
+            if exc is not None:
+                acc.violation("shutdown:sgx-repair-through-unlock:%s:in-range-sw" % what,
+                              {"shape": shape.name, "sw": "%04x" % sw, "exc": repr(exc),
+                               "reply": reply}, case)
+            elif not isinstance(reply, dict) or reply.get("errorcode") not in allowed:
+                acc.violation("code-not-documented:%s:sgx-repair-through-unlock" % shape.command,
+                              {"shape": shape.name, "sw": "%04x" % sw, "reply": reply}, case)
 
 
 def check_streak(acc, shape, roles, allowed):
@@ -469,6 +517,8 @@ def replay(case, acc):
         return
     f = case["fault"]
     fault = Fault(f[0], sw=f[1], n=f[2], processed=f[3])
+    if case.get("sgx_locked_repair"):
+        return check_sgx_locked_repair(acc, shape, docs[shape.command])
     if case.get("platforms"):
         return check_platforms_agree(acc, shape, case["v1"], case["k"], case["role"], f[1])
     check_cell(acc, shape, case["v1"], case["k"], case["role"], fault, docs[shape.command], base,
